@@ -280,6 +280,107 @@ struct RpcCase {
     }
 };
 
+// ------------------------------------------------------------------ two Rpc peers, scripted pipe
+struct WorldCase {
+    Kind kind;
+    tbox::event::Loop *loop = nullptr;
+    std::shared_ptr<Proto> pa, pb;
+    std::unique_ptr<Rpc> A, B;              // A: client peer, B: server peer
+    std::vector<std::string> cs, sc;        // frames in flight
+    std::vector<std::string> cev, sev;
+    int n_tag = 0;
+
+    WorldCase(const Kind &k, int nc, int ns) : kind(k) {
+        loop = tbox::event::Loop::New();
+        pa = newProto(k); pb = newProto(k);
+        A.reset(new Rpc(loop)); B.reset(new Rpc(loop));
+        A->initialize(pa.get(), nc); B->initialize(pb.get(), ns);
+        pa->setSendCallback([this](const void *p, size_t sz) {
+            std::string bytes((const char *)p, sz);
+            auto g = Framing::decodeFresh(kind, bytes);
+            cev.push_back(g.n == 1 && g.type == 'q' ? "s" + std::to_string(g.id) + ":" + g.method : "s?");
+            cs.push_back(bytes);
+        });
+        pb->setSendCallback([this](const void *p, size_t sz) {
+            std::string bytes((const char *)p, sz);
+            auto g = Framing::decodeFresh(kind, bytes);
+            sev.push_back(g.n == 1 && g.type == 's' ? "r" + std::to_string(g.id) + ":" + std::to_string(g.ec) : "r?");
+            sc.push_back(bytes);
+        });
+        auto svc = [this](int code, bool sync) {
+            return [this, code, sync](int id, const Json &, int &errcode, Json &result) {
+                sev.push_back("c" + std::to_string(id));
+                errcode = code; result = 7;
+                return sync;
+            };
+        };
+        B->addService("s0", svc(0, true));
+        B->addService("s5", svc(5, true));
+        B->addService("as", svc(0, false));
+    }
+    ~WorldCase() {
+        A->cleanup(); B->cleanup(); A.reset(); B.reset(); pa.reset(); pb.reset();
+        delete loop;
+    }
+    void request(bool chain, const std::string &method) {
+        int tag = n_tag++;
+        A->request(method, Json::array({1}), [this, tag, chain](int ec, const Json &) {
+            cev.push_back("f" + std::to_string(tag) + ":" + std::to_string(ec));
+            if (chain) request(false, "s0");
+        });
+    }
+    static bool svcTok(const std::string &m) { return m == "s0" || m == "s5" || m == "as" || m == "no"; }
+    bool act(const std::vector<std::string> &w) {
+        int id = 0, code = 0; uint64_t n = 0;
+        if (w[0] == "req" && w.size() == 3 && (w[1] == "0" || w[1] == "1") && svcTok(w[2])) { request(w[1] == "1", w[2]); return true; }
+        if (w[0] == "note" && w.size() == 2 && svcTok(w[1])) { A->notify(w[1]); return true; }
+        if ((w[0] == "dlv" || w[0] == "drop" || w[0] == "dup") && w.size() == 3 && (w[1] == "cs" || w[1] == "sc") && vh::to_u64(w[2], n)) {
+            bool to_server = w[1] == "cs";
+            auto &q = to_server ? cs : sc;
+            if (n >= q.size()) return true;       // nothing there: no-op
+            if (w[0] == "dup") { q.push_back(q[n]); return true; }
+            std::string bytes = q[n];
+            q.erase(q.begin() + n);
+            if (w[0] == "dlv") RpcCase::pump(to_server ? pb.get() : pa.get(), bytes);
+            return true;
+        }
+        if (w[0] == "srsp" && w.size() == 3 && i32(w[1], id) && i32(w[2], code)) {
+            if (code == 0) B->respond(id, Json(7)); else B->respond(id, code);
+            return true;
+        }
+        if (w[0] == "adv" && w.size() == 2 && vh::to_u64(w[1], n) && n <= 100000) { vt::advance_ms((int64_t)n); return true; }
+        return false;
+    }
+    void flush() {
+        std::string out = "P ev";
+        if (cev.empty()) out += " -";
+        for (auto &e : cev) out += " " + e;
+        out += " |";
+        if (sev.empty()) out += " -";
+        for (auto &e : sev) out += " " + e;
+        cev.clear(); sev.clear();
+        say(out);
+    }
+};
+
+static void runWorldCase(const Kind &k, int nc, int ns, const std::vector<std::string> &ops) {
+    WorldCase wc(k, nc, ns);
+    say("P world");
+    if (ops.empty()) return;
+    size_t idx = 0; int phase = 0;
+    vh::LoopDriver drv(wc.loop);
+    drv.step = [&]() -> bool {
+        if (phase == 0) {
+            auto w = vh::words(ops[idx]);
+            if (w.empty() || !wc.act(w)) { say("bad-op"); ++idx; return idx < ops.size(); }
+            phase = 1; return true;
+        }
+        wc.flush(); phase = 0; ++idx;
+        return idx < ops.size();
+    };
+    drv.run();
+}
+
 static void runRpcCase(const Kind &k, int n, const std::vector<std::string> &ops) {
     RpcCase rc(k, n);
     say("P rpc");
@@ -314,6 +415,15 @@ static void runCase(const std::vector<std::string> &lines) {
             std::vector<std::string> rest;
             for (size_t j = i + 1; j < lines.size(); ++j) if (!vh::words(lines[j]).empty()) rest.push_back(lines[j]);
             runRpcCase(k, (int)n, rest);
+            return;
+        }
+        uint64_t nc = 0, ns = 0;
+        if (fresh && w[0] == "world" && w.size() == 4 && (w[1] == "H" || w[1] == "R" || w[1] == "P") &&
+            vh::to_u64(w[2], nc) && nc >= 1 && nc <= 8 && vh::to_u64(w[3], ns) && ns >= 1 && ns <= 8) {
+            Kind k; k.k = w[1][0]; k.magic = 0x3e5a;
+            std::vector<std::string> rest;
+            for (size_t j = i + 1; j < lines.size(); ++j) if (!vh::words(lines[j]).empty()) rest.push_back(lines[j]);
+            runWorldCase(k, (int)nc, (int)ns, rest);
             return;
         }
         if (!fr.op(w)) say("bad-op"); else fresh = false;
